@@ -19,7 +19,7 @@ pub struct RustBp {
     dir: String,
 }
 
-#[derive(Clone, Debug)]
+#[derive(Clone, Debug, PartialEq)]
 pub enum CDep {
     Libcnb(usize), // index into all nodes (rust bps first, then composites with smaller index)
     RelPath(String),
@@ -78,6 +78,13 @@ fn workspace_strategy() -> impl Strategy<Value = Workspace> {
                 dir: if i % 2 == 0 { format!("buildpacks/rust-{i}") } else { format!("nested/deeper/rust-{i}") },
             })
             .collect();
+        // every other workspace with >= 2 crates and a composite keeps the second crate INSIDE the first composite's
+        // directory (a meta-buildpack with its components in a sub-directory) and makes it one of its dependencies
+        let nested = linked == (nrust % 2 == 0) && nrust >= 2 && ncomp >= 1;
+        let mut rust = rust;
+        if nested {
+            rust[1].dir = "meta/composite-0/components/rust-1".to_string();
+        }
         let composites: Vec<Composite> = (0..ncomp.min(3))
             .map(|c| {
                 let avail = nrust + c;
@@ -86,7 +93,7 @@ fn workspace_strategy() -> impl Strategy<Value = Workspace> {
                 if c == 0 && !spec.iter().any(|(_, k)| *k <= 1) {
                     spec.insert(0, (7, 0));
                 }
-                let deps = spec
+                let mut deps: Vec<CDep> = spec
                     .iter()
                     .map(|(r, kind)| match kind {
                         0 | 1 => CDep::Libcnb(pick_idx(*r, avail)),
@@ -94,6 +101,9 @@ fn workspace_strategy() -> impl Strategy<Value = Workspace> {
                         _ => CDep::Docker("docker://docker.io/heroku/procfile-cnb:2.0.0".to_string()),
                     })
                     .collect();
+                if nested && c == 0 && !deps.contains(&CDep::Libcnb(1)) {
+                    deps.push(CDep::Libcnb(1));
+                }
                 // the second composite's id differs from the first Rust buildpack's only in letter case
                 Composite { id: if c == 1 { "acme/Rust-0".to_string() } else { format!("acme/meta-{c}") }, dir: format!("meta/composite-{c}"), deps }
             })
@@ -601,7 +611,7 @@ fn check_workspace(scratch: &Path, w: &Workspace, invs: &[Invocation], idx: usiz
 }
 
 pub fn run(ctx: &Ctx) {
-    ctx.set_rule("generated Cargo workspaces (1-3 dependency-free libcnb.rs buildpack crates with 1-3 binary targets whose main functions print distinct tokens, 0-3 composite buildpacks whose package.toml mixes libcnb:, relative-path and docker dependencies forming a DAG, 0-2 non-libcnb buildpack directories, ids with one or two '/' where one id is a '/'-prefix of another and two ids differ only in letter case, nested locations, in 3 of 10 workspaces one composite's directory being a symbolic link to a directory outside the workspace, an .ignore file for output and target directories) packaged by the REAL cargo-libcnb binary built from /repo (--target x86_64-unknown-linux-gnu --no-cross-compile-assistance): from the workspace root, from each buildpack directory and from an unrelated directory; dev/--release; default, relative and absolute --package-dir; each over a clean output directory and over output directories pre-seeded with foreign files/dirs/symlinks, with a truncated earlier output (interrupted-run model: random subset of a real output deleted or cut in half) with an output of a different workspace revision, or with a complete earlier output whose descriptors are current but whose binaries are old (always tried once from a composite's own directory). Oracle: exit 0; for exactly the selected buildpacks and their transitive libcnb: dependencies a directory with byte-identical buildpack.toml, bin/build byte-identical to the compiled main target, bin/detect a symbolic link resolving to bin/build (or a hard link to it), every extra binary under .libcnb-cargo/additional-bin/<target name>, package.toml (decoded: uri '.' and no dependencies for libcnb.rs buildpacks; normalised descriptor decoded with Python tomllib for composites) and no other entry; stdout lines = the selected buildpacks' output directories; snapshot after a pre-seeded run == snapshot of the clean run; no entry besides the listed ones except empty directories; a run from an unrelated directory is executed but not judged. Non-trivial: selection contains a composite with >= 1 libcnb: dependency AND the run starts from a pre-seeded output directory; distinct = hash of (workspace, invocation).");
+    ctx.set_rule("generated Cargo workspaces (1-3 dependency-free libcnb.rs buildpack crates with 1-3 binary targets whose main functions print distinct tokens, 0-3 composite buildpacks whose package.toml mixes libcnb:, relative-path and docker dependencies forming a DAG, 0-2 non-libcnb buildpack directories, ids with one or two '/' where one id is a '/'-prefix of another and two ids differ only in letter case, nested locations (also a crate buildpack inside the directory of the composite that depends on it), in 3 of 10 workspaces one composite's directory being a symbolic link to a directory outside the workspace, an .ignore file for output and target directories) packaged by the REAL cargo-libcnb binary built from /repo (--target x86_64-unknown-linux-gnu --no-cross-compile-assistance): from the workspace root, from each buildpack directory and from an unrelated directory; dev/--release; default, relative and absolute --package-dir; each over a clean output directory and over output directories pre-seeded with foreign files/dirs/symlinks, with a truncated earlier output (interrupted-run model: random subset of a real output deleted or cut in half) with an output of a different workspace revision, or with a complete earlier output whose descriptors are current but whose binaries are old (always tried once from a composite's own directory). Oracle: exit 0; for exactly the selected buildpacks and their transitive libcnb: dependencies a directory with byte-identical buildpack.toml, bin/build byte-identical to the compiled main target, bin/detect a symbolic link resolving to bin/build (or a hard link to it), every extra binary under .libcnb-cargo/additional-bin/<target name>, package.toml (decoded: uri '.' and no dependencies for libcnb.rs buildpacks; normalised descriptor decoded with Python tomllib for composites) and no other entry; stdout lines = the selected buildpacks' output directories; snapshot after a pre-seeded run == snapshot of the clean run; no entry besides the listed ones except empty directories; a run from an unrelated directory is executed but not judged. Non-trivial: selection contains a composite with >= 1 libcnb: dependency AND the run starts from a pre-seeded output directory; distinct = hash of (workspace, invocation).");
     ctx.assume("the musl target is not installed in this sandbox: the host gnu triple is passed explicitly, cross-compile assistance is not exercised");
     if !cargo_libcnb().exists() {
         ctx.inconclusive("cargo-libcnb has not been built (run ./setup.sh)");
